@@ -194,9 +194,18 @@ func c01R2(p *core.Program, r *core.Report, w *core.Func, parse *ast.CallExpr, f
 			r.Unknown(rule, w, "gofumpt options", c.Pos(), "options are not a literal")
 			continue
 		}
-		modOK := func(e ast.Expr, field string) bool {
+		var modOKd func(e ast.Expr, field string, depth int) bool
+		modOKd = func(e ast.Expr, field string, depth int) bool {
 			found := false
 			ast.Inspect(e, func(n ast.Node) bool {
+				// a local (or the parameter of an inlined helper) that was given the value
+				if id, isID := n.(*ast.Ident); isID && depth < 4 {
+					if v := core.VarOf(info, id); v != nil && !v.IsField() {
+						if d, single := core.SingleDef(info, w.Body, v); single && d.Rhs != nil && d.Index < 0 && modOKd(d.Rhs, field, depth+1) {
+							found = true
+						}
+					}
+				}
 				sel, isSel := n.(*ast.SelectorExpr)
 				if !isSel || sel.Sel.Name != field {
 					return true
@@ -209,6 +218,7 @@ func c01R2(p *core.Program, r *core.Report, w *core.Func, parse *ast.CallExpr, f
 			})
 			return found
 		}
+		modOK := func(e ast.Expr, field string) bool { return modOKd(e, field, 0) }
 		var lang, modp, extra ast.Expr
 		for _, el := range cl.Elts {
 			if kv, isKV := el.(*ast.KeyValueExpr); isKV {
